@@ -17,6 +17,8 @@ func main() {
 		cmdUnit(os.Args[2:])
 	case "check":
 		cmdCheck(os.Args[2:])
+	case "replay":
+		cmdReplay(os.Args[2:])
 	default:
 		fmt.Fprintln(os.Stderr, "unknown command")
 		os.Exit(2)
